@@ -8,16 +8,27 @@ import verif
 NAPI = 31
 
 
-def judge(ctx, cases):
+NAPI_M = 20
+PREFIXES = ['{"a":1}\n', '[1,\n2]\n\n', '"s" ', 'null\n7\n', '{"a":\n[true,\n{}]}\r\n \t', '0.5e1 ', '[]\n' * 40]
+
+
+def judge(ctx, cases, mode="c09"):
+    """mode c09: one JSON text per input; c09m: the input is a stream of texts given to the multi-document front-ends."""
     if not isinstance(cases, str):
-        p = os.path.join(ctx.scratch, "replay_cases.ndjson")
-        verif.write_ndjson(p, cases)
-        cases = p
-    trace, hang = jsonfam.exec_cases(ctx, cases, "c09")
+        multi = [c for c in cases if c.get("multi")]
+        single = [c for c in cases if not c.get("multi")]
+        out = []
+        for part, m in ((single, "c09"), (multi, "c09m")):
+            if part:
+                p = os.path.join(ctx.scratch, "replay_cases_%s_%d.ndjson" % (m, ctx._n))
+                verif.write_ndjson(p, part)
+                out += judge(ctx, p, m)
+        return out
+    trace, hang = jsonfam.exec_cases(ctx, cases, mode)
     if hang is not None:
         return [{"api": "?", "kind": "hang", "locus": "(hang)", "witness": jsonfam.to_text(hang["b"]), "case": hang}]
-    res = ctx.validate("TraceJson", trace, cfg=jsonfam.TRACE_CFG % "c09", chunk=25000)
-    ctx.cov["evaluations"] += res["n"] * NAPI
+    res = ctx.validate("TraceJson", trace, cfg=jsonfam.TRACE_CFG % mode, chunk=25000)
+    ctx.cov["evaluations"] += res["n"] * (NAPI if mode == "c09" else NAPI_M)
     recs, lines = [], None
     for b in res["bad"]:
         if lines is None:
@@ -27,7 +38,8 @@ def judge(ctx, cases):
             where = "line>1" if b["nl"] else "line1"
             recs.append({"api": api, "kind": b["kind"], "locus": jsonfam.locus_str(b["loc"]) + "/" + where,
                          "witness": jsonfam.padded_text(case),
-                         "case": {"b": case["b"], "pad": case["pad"]} if case.get("pad") else {"b": case["b"]},
+                         "case": ({"b": case["b"], "multi": 1} if mode == "c09m" else
+                                  {"b": case["b"], "pad": case["pad"]} if case.get("pad") else {"b": case["b"]}),
                          "detail": {"reported": b["got"], "expected": b["exp"]}})
     return recs
 
@@ -46,6 +58,29 @@ def main(ctx):
     with open(cases, "ab") as f:
         f.write(open(extra, "rb").read())
     recs = judge(ctx, cases)
+    # streams of documents: complete texts (each followed by white space, some over several lines) in front of a sample of the same
+    # inputs, through the multi-document front-ends (callback / OnlyOne = false), whole and chunked
+    mcases = os.path.join(ctx.scratch, "multi.ndjson")
+    step = 12 if ctx.quick else 2
+    nm = 0
+    with open(cases) as f, open(mcases, "w") as g:
+        for k, line in enumerate(f):
+            if (k + ctx.seed) % step:
+                continue
+            c = json.loads(line)
+            if c.get("pad"):
+                continue
+            pre = PREFIXES[(k // step) % len(PREFIXES)]
+            g.write(json.dumps({"b": list(pre.encode()) + c["b"], "src": "multi"}) + "\n")
+            nm += 1
+        for tail in ("[1 2]", "{\"a\" 1}", "tru ", "[1,]", "9.", "[\n\n1 2]", "\"x\\q\"", "{", "nul"):      # the error in the 2nd, 3rd ... text
+            for n in (1, 2, 3, 7):
+                for sep in ("\n", " ", "\n\n", "\r\n"):
+                    for doc in ('{"a":1}', '[1,\n2]', '7', '"s\\n"', 'null'):
+                        g.write(json.dumps({"b": list(((doc + sep) * n + tail).encode()), "src": "multi"}) + "\n")
+                        nm += 1
+    ctx.cov["multi_document_streams"] = nm
+    recs += judge(ctx, mcases, "c09m")
     for r in recs:
         ctx.add(r["api"], r["kind"], r["locus"], r["witness"], case=r["case"], detail=r.get("detail"))
     with open(cases) as f:
@@ -56,7 +91,9 @@ def main(ctx):
     ctx.cov["rule"] = ("same transition-cover inputs as C01 (without BOM) plus newline-prefixed variants, random documents with "
                        "mutations and long inputs whose error lies behind the 4096/8192-byte refill; every input both the "
                        "specification and a front-end reject is compared on (line, column) for 5 whole-buffer front-ends and "
-                       "19 reader variants (whole, 1-byte, 3-byte, half and data-with-EOF reads), also on refill-aligned (pad, b) inputs. distinct_nontrivial = model transitions with a witness.")
+                       "19 reader variants (whole, 1-byte, 3-byte, half and data-with-EOF reads), also on refill-aligned (pad, b) inputs; a sample of the "
+                       "inputs behind complete texts (streams of documents, lines counted through the stream) for 20 multi-document "
+                       "front-end variants (callback, OnlyOne = false). distinct_nontrivial = model transitions with a witness.")
     ctx.assumptions += ["position of the first offending byte is defined by JsonText: ViablePrefix + GrammarEquiv (checked by TLC) "
                         "make the Err step the first byte after which no completion exists"]
 
